@@ -599,7 +599,8 @@ class CPreProcessor:
         """Handle the '#' stringify operator.
 
         Take care of:
-        - single space between the tokens being stringified
+        - single space between the tokens being stringified, if they
+          were separated by white space
         - no spaces before first and after last token
         - escape double quotes of strings and backslash inside strings.
         """
@@ -610,7 +611,14 @@ class CPreProcessor:
             else:
                 return t.val
 
-        string_value = '"{}"'.format(" ".join(map(escape, snippet)))
+        # White space between the tokens of the argument becomes a single
+        # space, tokens that were not separated stay together.
+        parts = []
+        for t in snippet:
+            if parts and (t.space or t.first):
+                parts.append(" ")
+            parts.append(escape(t))
+        string_value = '"{}"'.format("".join(parts))
         return CToken("STRING", string_value, hash_token.space, False, loc)
 
     def concat(self, lhs, rhs):
